@@ -113,6 +113,54 @@ theorem modulateDft_sum {n : Nat} [NeZero n] (ω ωi ninv : K) (hω : ω ^ n = 1
 
 end Field
 
+section Conv
+variable {K : Type} [Field K]
+
+theorem pow_fin_sub {n : Nat} (a b : K) (hab : a * b = 1) (ha : a ^ n = 1) (i j : Fin n) :
+    a ^ ((i - j : Fin n) : Nat) = b ^ (j : Nat) * a ^ (i : Nat) := by
+  have hj : (j : Nat) ≤ n := Nat.le_of_lt j.isLt
+  have h1 : a ^ (n - (j : Nat)) * a ^ (j : Nat) = 1 := by
+    rw [← pow_add, Nat.sub_add_cancel hj, ha]
+  have h2 : a ^ (j : Nat) * b ^ (j : Nat) = 1 := by rw [← mul_pow, hab, one_pow]
+  have h3 : a ^ (n - (j : Nat)) = b ^ (j : Nat) := by
+    calc a ^ (n - (j : Nat)) = a ^ (n - (j : Nat)) * (a ^ (j : Nat) * b ^ (j : Nat)) := by rw [h2, mul_one]
+      _ = (a ^ (n - (j : Nat)) * a ^ (j : Nat)) * b ^ (j : Nat) := by ring
+      _ = b ^ (j : Nat) := by rw [h1, one_mul]
+  rw [Fin.sub_def]
+  simp only
+  rw [← pow_eq_pow_mod _ ha, pow_add, h3]
+
+/-- Convolution theorem for the filter as coded. -/
+theorem modulateDft_eq_circConv {n : Nat} (ω ωi ninv : K) (hω : ω ^ n = 1) (hinv : ω * ωi = 1)
+    (m x : Fin n → K) (i : Fin n) :
+    modulateDft (fun t => ω ^ t) (fun t => ωi ^ t) ninv m x i =
+      circConv (kernelOf (fun t => ωi ^ t) ninv m) x i := by
+  have hωi : ωi ^ n = 1 := by
+    have : (ω * ωi) ^ n = 1 := by rw [hinv]; simp
+    rw [mul_pow, hω, one_mul] at this; exact this
+  unfold modulateDft kernelOf
+  rw [circConv_apply]
+  simp only [dftWith_apply]
+  have e1 : ∀ (j k : Fin n), ω ^ ((j : Nat) * (k : Nat) % n) = (ω ^ (k : Nat)) ^ (j : Nat) := by
+    intro j k; rw [← pow_eq_pow_mod _ hω, mul_comm, pow_mul]
+  have e2 : ∀ (k i : Fin n), ωi ^ ((k : Nat) * (i : Nat) % n) = (ωi ^ (k : Nat)) ^ (i : Nat) := by
+    intro k i; rw [← pow_eq_pow_mod _ hωi, pow_mul]
+  simp only [e1, e2]
+  have e4 : ∀ (k j : Fin n), (ωi ^ (k : Nat)) ^ ((i - j : Fin n) : Nat) =
+      (ω ^ (k : Nat)) ^ (j : Nat) * (ωi ^ (k : Nat)) ^ (i : Nat) := by
+    intro k j
+    apply pow_fin_sub
+    · rw [← mul_pow, mul_comm, hinv, one_pow]
+    · rw [← pow_mul, mul_comm, pow_mul, hωi, one_pow]
+  simp only [e4]
+  simp only [Finset.mul_sum, Finset.sum_mul]
+  rw [Finset.sum_comm]
+  apply Finset.sum_congr rfl; intro j _
+  apply Finset.sum_congr rfl; intro k _
+  ring
+
+end Conv
+
 section Ordered
 variable {K : Type} [CommRing K] [LinearOrder K] [IsStrictOrderedRing K]
 
